@@ -128,6 +128,7 @@ func (s *Syncer) parallelSync(ctx context.Context, cs consensus.State, headers [
 	wg.Add(1)
 	go func() {
 		defer wg.Done()
+		var suppliers []*Peer
 		for resps := range finishCh {
 			for _, r := range resps {
 				var err error
@@ -137,10 +138,20 @@ func (s *Syncer) parallelSync(ctx context.Context, cs consensus.State, headers [
 					err = s.cm.AddBlocks(r.blocks)
 				}
 				if err != nil {
-					s.ban(r.peer, fmt.Errorf("peer sent invalid blocks: %w", err))
+					// the offending block may be part of an earlier batch that was
+					// only stored (not yet heavy enough to be validated); only ban
+					// if this peer supplied everything added so far
+					sole := true
+					for _, sp := range suppliers {
+						sole = sole && sp == r.peer
+					}
+					if sole {
+						s.ban(r.peer, fmt.Errorf("peer sent invalid blocks: %w", err))
+					}
 					errCh <- err
 					return
 				}
+				suppliers = append(suppliers, r.peer)
 			}
 		}
 		errCh <- nil
